@@ -279,7 +279,14 @@ def run_hlist(case: Dict[str, Any]) -> CaseInfo:
 @st.composite
 def kamax_case(draw: Any) -> Dict[str, Any]:
     r = draw(st.sampled_from([0, 1, 1, 2, 3, 5]))
-    return {"kind": "kamax", "proto": draw(st.sampled_from(["h1", "h2", "h2c"])), "r": r,
+    proto = draw(st.sampled_from(["h1", "h2", "h2c"]))
+    adjusted = None
+    if r == 0 and proto == "h2c":
+        # known finding C18-3: the request that upgrades the connection is counted without the
+        # limit being looked at, so with a limit of 0 two requests are taken on instead of one;
+        # excluded by construction (counted), the committed replay keeps reporting it
+        r, adjusted = 1, "h2c_limit_0"
+    return {"kind": "kamax", "proto": proto, "r": r, "adjusted": adjusted,
             "n": r + draw(st.sampled_from([-1, 0, 1, 2])), "pipelined": draw(st.booleans()),
             "sched": draw(st.integers(0, 999)),
             # the application's own wish to keep the connection does not lift the limit
@@ -362,12 +369,11 @@ def run_kamax(case: Dict[str, Any]) -> CaseInfo:
         cap = r if h1 else r + 1
         if r == 0:
             # a limit of 0 cannot mean "no request at all" (the first one is only counted once
-            # it is there): the first request is served and tells the client to stop; the
-            # upgrade request of an h2c connection is counted without being checked
-            cap = 1 if case["proto"] != "h2c" else 2
+            # it is there): the first request is served and tells the client to stop
+            cap = 1
         if len(obs.instances) > cap:
             raise Violation("too_many_requests_on_connection", f"{len(obs.instances)} requests "
-                            f"served, keep_alive_max_requests={r}", **tag)
+                            f"served, keep_alive_max_requests={r}", **tag, r=r)
         if len(obs.instances) != min(n, cap):
             raise Violation("requests_within_limit_not_served", f"{len(obs.instances)} served of "
                             f"{n} sent, limit {r}", **tag)
@@ -407,7 +413,8 @@ def run_kamax(case: Dict[str, Any]) -> CaseInfo:
                                     f"{st_ and (bytes(st_.data), st_.end_stream, st_.rst)}; "
                                     f"limit {r}, goaway {acct.goaway}", **tag,
                                     which="over_limit" if k >= cap - 1 else "within_limit")
-    return CaseInfo(abs(n - r) <= 1, [f"proto={case['proto']}", f"r={r}", f"n={n}"], evals=2)
+    return CaseInfo(abs(n - r) <= 1, [f"proto={case['proto']}", f"r={r}", f"n={n}"]
+                    + (["adjusted:" + case["adjusted"]] if case.get("adjusted") else []), evals=2)
 
 
 # --------------------------------------------------------------------------- (e) worker recycling
